@@ -75,6 +75,15 @@ structure Env where
   alpha : AlphaEnv := {}
   deriving Repr
 
+/-- native RoleManagement as `neofs.Update` / `processing.Update` read it. `designateAsRole` executed in block `N`
+stores the key list under index `N+1` (neo-go `designateAsRole`: key `role ‖ BE32(Block.Index+1)`);
+`getDesignatedByRole(role, index)` answers the stored list with the greatest stored index `≤ index`. `ds` holds
+`(stored index, keys)` in the order the designations were made. The contracts ask for `ledger.CurrentIndex()+1`, which
+during block `B` is `B` itself: a designation made in block `N` is in force for every transaction from block `N+1` on
+(and not yet for later transactions of block `N`). -/
+def roleInForce (ds : List (Int × List Nat)) (index : Int) : List Nat :=
+  ds.foldl (fun cur d => if d.1 ≤ index then d.2 else cur) []
+
 structure CState where
   /-- `common.Version` of the deployed executable -/
   ver : Int
